@@ -24,7 +24,17 @@ META = {
             "(sequentially consistent interleavings only; memory-order obligations checked on the regenerated site table); "
             "the event-level engine model is tied to the code by outcome equality, not by step-for-step trace replay "
             "(the engine has no hook at flush_emits / dependency.ready).  Processor bodies are pure functions (Section "
-            "variable in the theorems).  Multiple producers, mutable dependencies, channels and trivial vertices whose "
+            "variable in the theorems).  KNOWN FINDING run-races-external-release: if Graph::run() starts while another "
+            "thread is still inside emit()/release() of an input (data sealed, successors not yet notified - cases with exec "
+            "suffix 'x', directed case x.dir = seed 921473905, PCT, 3 workers, d0 injected after 7 yields, targets d8,d7), "
+            "fire() can bring the closure's vertex count to 0 while that release is in flight: the closure finishes with -1 "
+            "('all vertex finish but data not ready') although the sequential evaluation succeeds, wait() returns, and the "
+            "late release then invokes vertices on the flushed or already destroyed ClosureContext (SIGSEGV in "
+            "depend_vertex_sub, or Promise::set_value twice).  No small fix: ClosureContext counts only GraphVertexClosure "
+            "objects, an external release holds none, and a dependency cannot tell a sealed-but-not-yet-notified target "
+            "from one that will never notify; repairing it needs the releasing thread to register with the closure(s) of "
+            "activated successors (a protocol change).  The theorems hold under the assumption 'external emitters have "
+            "returned before run() starts' (CVAdd guard of the closure machine).  Multiple producers, mutable dependencies, channels and trivial vertices whose "
             "outputs are injected externally (documented as unsupported in vertex.cpp) are outside the quantifier.",
 }
 
@@ -271,6 +281,15 @@ def case_line(cid, seed, strat, ex, cycles, graph, presets, inj_threads, targets
                                            ",".join("%d" % t for t in targets))
 
 
+# the directed case of the known finding run-races-external-release (see META["note"])
+XDIR = ("x.dir", 921473905, 1, "P3x", 2,
+        [("b", [(0, None, False, False), (0, None, False, True)], [1, 2]), ("t", [], [3]),
+         ("", [(2, None, False, False), (3, None, False, True), (2, None, False, False)], [4]), ("", [], [5, 6]),
+         ("b", [(0, 2, True, True)], [7]), ("b", [(4, None, False, False)], [8]),
+         ("", [(3, 0, False, True), (4, None, False, False)], [9, 10])],
+        [], [[(0, 1, 7)]], [8, 7])
+XSIG = "run-races-external-release"
+
 MON = ["once", "deps", "flag", "input", "dataonce", "wait", "fin", "tgtready"]
 WHAT = {"once": "a vertex processor ran (or was activated) more than once in one run",
         "deps": "a processor ran before all of its dependencies were ready (condition sealed, target sealed if it holds)",
@@ -375,11 +394,16 @@ def main(argv):
                 ex = ["I", "P1", "P2", "P3", "P2", "I"][si % 6] if gi % 4 != 3 else ["P2", "P3", "P1", "P2", "P3", "I"][si % 6]
                 strat = [0, 3, 0, 1, 3, 0][si % 6]
                 cycles = 2 if si % 3 == 0 else 1
+                if inj and gi % 15 == 2 and si in (1, 3):
+                    ex, cycles = (ex if ex != "I" else "P2") + "x", 1      # run() races the injector's release()
                 cases.append(("g%d.%d" % (gi, si), rng.below(1 << 31), strat, ex, cycles, graph, pres, inj, targets))
+    if not chk.replay:
+        cases.append(XDIR)
     lines = []
+    xlines = []          # 'x' mode: one driver process per case, run last (a crash there cannot touch any other case)
     meta = {}
     for c in cases:
-        lines.append(case_line(*c))
+        (xlines if c[3].endswith("x") else lines).append(case_line(*c))
         meta[c[0]] = c
     # unit cases: the real GraphVertex::activate against the real release() of its condition / target, 3 threads
     ucfg = {"u11": ("1", "1", "-:1?0:2", "0=1", "1=7"), "u10": ("1", "0", "-:1!0:2", "0=1", "1=7"),
@@ -399,8 +423,11 @@ def main(argv):
                 cid = "%s.%d" % (name, k)
                 ulines.append("%s %d %d U 1 %s - %s 2" % (cid, rng.below(1 << 31), [0, 3, 1][k % 3], g, inj))
                 umeta[cid] = (name, hc, ho)
-    chk.log("%d graph cases, %d unit cases" % (len(lines), len(ulines)))
+    chk.log("%d graph cases, %d unit cases, %d cases where run() races an external release" % (len(lines), len(ulines), len(xlines)))
     impl_out = chk.run_cases(impl, lines + ulines, timeout=900) if impl else {}
+    if impl and xlines:
+        impl_out.update(chk.run_cases(impl, xlines, timeout=900, jobs=len(xlines)))
+    lines = lines + xlines
     model_out = {}
     dep_sets = {}
     if model:
@@ -461,6 +488,27 @@ def main(argv):
         if len(parts) != 3:
             chk.broke("harness", "unparsable driver line", l)
             continue
+        if ex.endswith("x"):
+            # the one known cause: the closure finished with an error although the sequential evaluation succeeds, at a
+            # moment when an external emit() had sealed its data but not yet returned (xp=1); the late release then
+            # invokes vertices on the flushed / destroyed closure (xl=1, crash).  Anything else goes through the
+            # ordinary monitors below.
+            _, _, xexp = expectations(graph, dict(presets), dict((d, v) for th in inj for (d, v, _) in th), targets)
+            racy = False
+            for s_ in parts[1].split("#"):
+                f_ = dict(x.split("=", 1) for x in s_.split() if "=" in x)
+                if f_.get("xp") == "1" and f_.get("code") != "0" and not xexp["lo"][1]:
+                    racy = True
+            if racy:
+                chk.violate(XSIG, "run() started while another thread was still inside emit()/release() of an input: the "
+                            "closure finished with -1 although the sequential evaluation succeeds (vertex count reached 0 "
+                            "with the release in flight); the late release then invokes vertices on the flushed closure "
+                            "(after wait() returned / crash): " + parts[1][:300], rep)
+                distinct.add((fmt_graph(graph), "racy"))
+                continue
+            if "crash=" in parts[1]:
+                chk.violate("crash", "implementation crashed under schedule: " + parts[1][:300], rep)
+                continue
         mon = dict(x.split("=") for x in parts[2].split())
         for m in MON:
             if mon.get(m) != "1":
@@ -522,6 +570,7 @@ def main(argv):
                        "covered only by the memory-order obligations on the regenerated site table)",
                        "graphs are acyclic, every data has at most one producer, no mutable dependencies / channels",
                        "external emitters have returned from emit before run() starts (the closure accounting does not "
-                       "cover a release() in flight on another thread)",
+                       "cover a release() in flight on another thread: known finding run-races-external-release, exercised by "
+                       "the 'x' cases)",
                        "fewer than 2^64 dependencies per vertex"]
     chk.finish("proof")
